@@ -89,7 +89,7 @@ class Result:
             self.stats[k] = self.stats.get(k, 0) + v
 
 
-def run_worker_block(binary, prop, tier, seed, part, start, count, extra, variant, res, lock, stop):
+def run_worker_block(binary, prop, tier, seed, part, start, count, extra, variant, res, lock, stop, stop_pred=None):
     """Run [start, start+count) in one process, restarting after a run that kills it."""
     pos = start
     end = start + count
@@ -128,6 +128,10 @@ def run_worker_block(binary, prop, tier, seed, part, start, count, extra, varian
                     res.hashes[h[0]] = h[1]
                 for d in done.get("digests", []):
                     res.digests[d[0]] = d[1]
+        if stop_pred is not None:
+            with lock:
+                if any(stop_pred(v) for v in res.violations[-50:]):
+                    stop.set()
         if done:
             pos = done["start"] + done["count"]
             continue
@@ -140,14 +144,16 @@ def run_worker_block(binary, prop, tier, seed, part, start, count, extra, varian
         cls, info = classify_crash(marker, p.stderr)
         with lock:
             res.crashes.append(dict(run=bad, cls=cls, info=info, marker=marker, variant=variant, part=part))
-            res.violations.append(dict(run=bad, cls=cls, site=info[:200], detail=marker.get("detail", ""), tags=[], case=None,
+            res.violations.append(dict(run=bad, cls=cls, site=info[:200], detail=marker.get("detail", ""), tags=marker.get("tags", "").split(), case=None,
                                        variant=variant, part=part, rerun_same=True, crash=True))
             res.runs += max(0, bad - pos)  # runs completed before the crash (their stats are lost)
             res.stats["worker_restarts"] = res.stats.get("worker_restarts", 0) + 1
+            if stop_pred is not None and stop_pred(res.violations[-1]):
+                stop.set()
         pos = bad + 1
 
 
-def run_stage(variant, prop, tier, seed, part, total, block, extra=(), hash_mod=0, key_mod=1, samples=1, stop=None):
+def run_stage(variant, prop, tier, seed, part, total, block, extra=(), hash_mod=0, key_mod=1, samples=1, stop=None, stop_pred=None):
     """Run `total` runs of one part on one build variant across all cores."""
     binary = os.path.join(B.BUILD, variant, "simzone")
     res = Result()
@@ -169,7 +175,7 @@ def run_stage(variant, prop, tier, seed, part, total, block, extra=(), hash_mod=
         futs = []
         for i, (s, n) in enumerate(blocks):
             ea = ex_args + (["--samples", str(samples)] if i < 3 and samples else [])
-            futs.append(ex.submit(run_worker_block, binary, prop, tier, seed, part, s, n, ea, variant, res, lock, stop))
+            futs.append(ex.submit(run_worker_block, binary, prop, tier, seed, part, s, n, ea, variant, res, lock, stop, stop_pred))
         for f in futs:
             f.result()
     res.wall = time.time() - t0
